@@ -323,16 +323,35 @@ func relationsCase(t *mon.T, c dec.Ctx) {
 			report("mirror-broken", op, x, y, a, b, "op(-x,-y) under the mirrored mode != -op(x,y)")
 		}
 	case 3: // Round monotone along a sorted chain of values sharing their leading digits
-		L := int64(1 + r.Intn(40))
 		head, _ := new(big.Int).SetString(gen.Digits(r, c.P), 10)
 		neg := r.Bool()
-		e := gen.TargetAdj(r, c) - c.P - L + 1
-		if e < gen.MinExp+1000 || e > gen.MaxExp-1000 {
-			e = -L
+		// position of the head's last digit: the members' tails hang below it
+		base := gen.TargetAdj(r, c) - c.P + 1
+		if base < gen.MinExp+2000 || base > gen.MaxExp-2000 {
+			base = 0
 		}
 		const chain = 6
-		vals := make([]*big.Int, 0, chain)
+		sharedPrefix := int64(0)
+		if r.Chance(1, 3) {
+			sharedPrefix = int64(1 + r.Intn(int(c.P)))
+		}
+		sameLen := r.Chance(1, 2)
+		L0 := int64(1 + r.Intn(40))
+		if r.Chance(1, 4) {
+			L0 = int64(41 + r.Intn(360))
+		}
+		members := make([]dec.D, 0, chain)
 		for i := 0; i < chain; i++ {
+			// tail lengths differ between members unless sameLen: short tails and
+			// tails of more than 128 digits (powers of ten beyond the lookup
+			// table) must round consistently with each other
+			L := L0
+			if !sameLen {
+				L = int64(1 + r.Intn(40))
+				if r.Chance(1, 3) {
+					L = int64(129 + r.Intn(300))
+				}
+			}
 			tail, _ := new(big.Int).SetString(gen.Digits(r, L), 10)
 			if r.Chance(1, 3) {
 				tail = new(big.Int).Rand(rngSource(r), dec.Pow10(L))
@@ -341,13 +360,19 @@ func relationsCase(t *mon.T, c dec.Ctx) {
 			if r.Chance(1, 5) {
 				h = new(big.Int).Add(head, big.NewInt(1))
 			}
-			vals = append(vals, new(big.Int).Add(new(big.Int).Mul(h, dec.Pow10(L)), tail))
+			v := new(big.Int).Add(new(big.Int).Mul(h, dec.Pow10(L)), tail)
+			if sharedPrefix > 0 {
+				total := c.P + L
+				low := new(big.Int).Rand(rngSource(r), dec.Pow10(total-sharedPrefix))
+				v.Sub(v, new(big.Int).Mod(v, dec.Pow10(total-sharedPrefix)))
+				v.Add(v, low)
+			}
+			members = append(members, dec.D{Form: dec.Finite, Neg: neg, C: v, E: base - L})
 		}
-		sort.Slice(vals, func(i, j int) bool { return vals[i].Cmp(vals[j]) < 0 })
+		sort.Slice(members, func(i, j int) bool { return dec.Cmp(members[i], members[j]) < 0 })
 		var prev Outcome
 		var prevX dec.D
-		for i, v := range vals {
-			x := dec.D{Form: dec.Finite, Neg: neg, C: v, E: e}
+		for i, x := range members {
 			o := callMode("round", c, m, x, dec.D{}, 0)
 			t.Eval()
 			if sysErr(o) || o.Err != nil {
@@ -357,7 +382,7 @@ func relationsCase(t *mon.T, c dec.Ctx) {
 			if i > 0 {
 				cx := dec.Cmp(prevX, x)
 				cr := dec.Cmp(prev.Res, o.Res)
-				if (cx < 0 && cr > 0) || (cx > 0 && cr < 0) {
+				if (cx < 0 && cr > 0) || (cx > 0 && cr < 0) || (cx == 0 && cr != 0) {
 					report("round-not-monotone", "round", prevX, x, prev, o, "x <= y but Round(x) > Round(y)")
 					return
 				}
